@@ -179,24 +179,34 @@ Definition pad_odd {A} (mk : A -> A) (l : list A) : list A :=
 Definition halve {A} (mk : A -> A) (f : A -> A -> A) (l : list A) : list A :=
   pair_up f (pad_odd mk l).
 
-Definition fill0 (o : option spec_float) (x : spec_float) : spec_float :=
+(* The per-axis stage, generic in the element type and the averaging function
+   (the model instantiates it with float64 [favg]; the proofs also with exact
+   arithmetic). *)
+Section AvgGen.
+Context {A : Type} (f : A -> A -> A).
+
+Definition fill0 (o : option A) (x : A) : A :=
   match o with None => x | Some c => c end.
-Definition fill1 o := map (fill0 o).
-Definition fill2 o := map (fill1 o).
+Definition fill1 (o : option A) := map (fill0 o).
+Definition fill2 (o : option A) := map (fill1 o).
 
-Definition halve_z (o : option spec_float) (a : arr4 spec_float) : arr4 spec_float :=
-  map (halve (fill2 o) (map2 (map2 favg))) a.
-Definition halve_y (o : option spec_float) (a : arr4 spec_float) : arr4 spec_float :=
-  map (map (halve (fill1 o) (map2 favg))) a.
-Definition halve_x (o : option spec_float) (a : arr4 spec_float) : arr4 spec_float :=
-  map (map (map (halve (fill0 o) favg))) a.
+Definition halve_z (o : option A) (a : arr4 A) : arr4 A :=
+  map (halve (fill2 o) (map2 (map2 f))) a.
+Definition halve_y (o : option A) (a : arr4 A) : arr4 A :=
+  map (map (halve (fill1 o) (map2 f))) a.
+Definition halve_x (o : option A) (a : arr4 A) : arr4 A :=
+  map (map (map (halve (fill0 o) f))) a.
 
-(* the float64 stage: z, then y, then x *)
-Definition avg_f64 (o : option spec_float) (fx fy fz : nat) (a : arr4 spec_float)
-  : arr4 spec_float :=
+(* z, then y, then x *)
+Definition avg_gen (o : option A) (fx fy fz : nat) (a : arr4 A) : arr4 A :=
   let a1 := if (fz =? 2)%nat then halve_z o a else a in
   let a2 := if (fy =? 2)%nat then halve_y o a1 else a1 in
   if (fx =? 2)%nat then halve_x o a2 else a2.
+End AvgGen.
+
+(* the float64 stage *)
+Definition avg_f64 (o : option spec_float) (fx fy fz : nat) (a : arr4 spec_float)
+  : arr4 spec_float := avg_gen favg o fx fy fz a.
 
 (* AveragingDownscaler(outside).downscale(chunk of dtype dt, fs).  The work
    type promote_types(dt, float64) is float64 for all ten types (DType table);
